@@ -17,6 +17,7 @@ from fractions import Fraction
 
 from dv import core
 from dv.core import cbool, clist, copt
+from dv import c18_chain
 from dv.c18_rng import (Chooser, ScriptedRng, RecordingRng, ScriptExhausted, ScriptMismatch,
                         UnscriptedMethod, GlobalRngTouched, poisoned_globals)
 
@@ -197,12 +198,37 @@ def run_sim(case, rng, extra=None):
             kw["birth_rate_sd"] = float(F(case.get("sb", 0)))
             kw["death_rate_sd"] = float(F(case.get("sd", 0)))
         ns = make_ns(case)
+        earlier = []
+        for p in (case.get("prior") or []):
+            # earlier simulations on the SAME namespace object (kept alive and re-observed below)
+            if ns is None:
+                ns = dendropy.TaxonNamespace()
+            pfn = treesim.birth_death_tree if p.get("sim", "bd") == "bd" else birthdeath.fast_birth_death_tree
+            pt = pfn(float(F(p["b"])), float(F(p["d"])), num_extant_tips=p["N"], taxon_namespace=ns,
+                     rng=c18_chain.prior_rng(p, rng))
+            earlier.append([pt, dump_tree(pt, list(ns)), [nd.taxon.label if nd.taxon is not None else None
+                                                          for nd in pt.leaf_node_iter()], pt.taxon_namespace is ns])
         if ns is not None:
             kw["taxon_namespace"] = ns
+        before = list(ns) if ns is not None else []
+        extra["ns_before"] = [t.label for t in before]
         tree = fn(float(F(case["b"])), float(F(case["d"])), **kw)
         taxa = list(tree.taxon_namespace)
         if ns is not None and tree.taxon_namespace is not ns:
             extra["ns_not_used"] = True
+        if [id(t) for t in taxa[:len(before)]] != [id(t) for t in before]:
+            extra["ns_not_extended"] = True
+        extra["leaf_labels"] = [nd.taxon.label for nd in tree.leaf_node_iter() if nd.taxon is not None]
+        if earlier:
+            extra["earlier_newick"] = [newick_repr(e[0]) for e in earlier]
+        for i, (pt, dumped, labs, same_ns) in enumerate(earlier):
+            now = [nd.taxon.label if nd.taxon is not None else None for nd in pt.leaf_node_iter()]
+            if not same_ns or pt.taxon_namespace is not ns:
+                extra["earlier_changed"] = "earlier tree %d is not on the supplied namespace" % i
+            elif dump_tree(pt, taxa) != dumped or now != labs or wf_problem(pt):
+                extra["earlier_changed"] = "tree returned by call %d changed during a later call: leaf labels %s -> %s" % (i, labs, now)
+            elif set(id(x) for x in pt.preorder_node_iter()) & set(id(x) for x in tree.preorder_node_iter()):
+                extra["earlier_changed"] = "the new tree shares nodes with the tree returned by call %d" % i
         return tree, taxa, [t.label for t in taxa], extra
     if sim == "pb":
         ns = dendropy.TaxonNamespace(["x%d" % i for i in range(case["N"])])
@@ -265,6 +291,8 @@ class _WeightedChoiceWatch:
 
         def wrapped(seq, weights, rng=None):
             res = self.orig(seq, weights, rng=rng)
+            if rng is not self.rng:
+                return res          # an earlier call of a history, on its own generator
             try:
                 ex = [Fraction(getattr(nd, "birth_rate") if b else getattr(nd, "death_rate")) for nd, b in seq]
                 tot = sum(ex)
@@ -406,7 +434,8 @@ def c_simcall(case, obs, fresh_new):
     sim = case["sim"]
     if sim in ("bd", "fbd"):
         others = []
-        ns = clist([lab_term(l, others) for l in (case.get("ns") or [])])
+        ns0 = (obs.get("extra") or {}).get("ns_before") if case.get("prior") else None
+        ns = clist([lab_term(l, others) for l in (ns0 if ns0 is not None else (case.get("ns") or []))])
         P = "(mkBdp %s %s %s %s %s)" % (cq(case["b"]), cq(case["d"]), cq(case.get("sb", 0)), cq(case.get("sd", 0)), cnat(case["N"]))
         return "(%s %s %s %s %s)" % ("SimBD" if sim == "bd" else "SimFBD", cbool(fresh_new), cbool(bool(case.get("cs", False))), P, ns), others
     if sim == "pb":
@@ -543,6 +572,19 @@ def result_problem(case, obs, exact=True):
             v = tree_spec_problem(t, exact)
             if v:
                 return (v[0], v[1] + ":" + sim)
+            if sim in ("bd", "fbd"):
+                fn = "birth_death_tree" if sim == "bd" else "fast_birth_death_tree"
+                ex = obs.get("extra") or {}
+                if ex.get("ns_not_used"):
+                    return ("the returned tree is not on the supplied namespace", "namespace-not-used:" + sim)
+                if ex.get("ns_not_extended"):
+                    return ("the supplied namespace was not merely extended (taxa replaced / reordered / removed)", "namespace-not-extended:" + sim)
+                if ex.get("earlier_changed"):
+                    return (ex["earlier_changed"], "earlier-tree-changed:" + sim)
+                if ex.get("leaf_labels") is not None and out[2] is not None:
+                    lv = c18_chain.label_problem(fn, ex.get("ns_before") or [], out[2], ex["leaf_labels"])
+                    if lv:
+                        return lv
     elif sim == "kingman":
         N = case["N"]
         if N >= 1:
@@ -657,6 +699,9 @@ def gen_case(rng, tier, kind=None):
         if rng.random() < 0.03:
             case["b"], case["d"] = rng.choice([("0", "0"), ("1", "1"), ("1", "2")])
         case["cap"] = 160 if not big else 400
+        if rng.random() < 0.3 and F(case["b"]) > F(case["d"]) >= 0:
+            # successive simulations sharing one namespace
+            case = c18_chain.chain_case(rng, case)
         return case
     if kind == "pb":
         return {"sim": "pb", "N": rng.choice([0, 1, 1, 2, 3, 4, 5, 6, 8, 10] + ([20] if big else [])),
@@ -750,6 +795,12 @@ def count_dist(ctx, case, obs):
     if sim in ("bd", "fbd"):
         ctx.count("N:%s" % ("0" if case["N"] == 0 else "1" if case["N"] == 1 else "2-4" if case["N"] <= 4 else "5-12" if case["N"] <= 12 else ">12"))
         ctx.count("namespace:" + ("none" if case.get("ns") is None else "short" if len(case["ns"]) < case["N"] else "enough"))
+        if case.get("prior"):
+            held = len((obs.get("extra") or {}).get("ns_before") or [])
+            ctx.count("shared-namespace:%d earlier call(s), N %s what it holds" % (
+                len(case["prior"]), "above" if case["N"] > held else "equal to" if case["N"] == held else "below"))
+            if any(T_RE.match(l) for l in (obs.get("extra") or {}).get("ns_before") or []) and case["N"] > held:
+                ctx.count("shared-namespace:T-labels held and new ones minted")
         calls = obs["calls"]
         # walk statistics recovered from the expovariate arguments (number of extant lineages)
         rates = [Fraction(c[1]) for c in calls if c[0] == "expovariate"]
@@ -789,10 +840,18 @@ def seed_case(rng):
         b = rng.choice([1.0, 0.7, 2.5, 0.1])
         d = rng.choice([0.0, 0.0, 0.3, 0.5, 0.9, 0.95]) * b
         c = {"sim": kind, "b": repr(b), "d": repr(d), "N": rng.choice([1, 2, 3, 5, 8, 13, 21, 40])}
-        if rng.random() < 0.5:
+        r = rng.random()
+        if r < 0.35:
             k = rng.choice([0, 1, 3, 8, 50])
             c["ns"] = ["sp%d" % i for i in range(k)]
             c["cs"] = rng.random() < 0.5
+        elif r < 0.7:
+            # successive simulations on one namespace and ONE generator (namespaces holding T<k> labels from
+            # the earlier call or from the caller, case variants; sizes below / at / above what it holds)
+            c = c18_chain.chain_case(rng, c)
+            for p in c["prior"]:
+                p.pop("policy", None)
+                p["b"], p["d"] = c["b"], c["d"]
         return c
     if kind == "pb":
         return {"sim": "pb", "N": rng.choice([1, 2, 3, 5, 8, 13, 30]), "b": repr(rng.choice([1.0, 0.3, 2.0]))}
@@ -864,7 +923,7 @@ def seed_oracle(case, seed):
                     "return differently labelled trees: gene nodes are created by iterating a set of Taxon hashed by id()",
                     KEY_SETORDER)
         return None
-    if b.get("newick") != a["newick"]:
+    if b.get("newick") != a["newick"] or (b.get("extra") or {}).get("earlier_newick") != (a.get("extra") or {}).get("earlier_newick"):
         return ("%s: two runs from equal generator states return different trees" % sim, "not-reproducible:" + sim)
     return None
 
